@@ -214,6 +214,15 @@ fn raw_hyg() -> impl Strategy<Value = RawHyg> {
                 }
             }
         }
+        // one case in 32 is a scaled family, a third of them at the family's maximum size
+        if choices[5] % 32 == 0 {
+            grammar.source = 1;
+            grammar.seed_ix = 0xFAAB + choices[6] % 0x0554;
+            grammar.edits.truncate(1);
+            if choices[7] % 3 == 0 {
+                grammar.start = 0xFFFF;
+            }
+        }
         RawHyg { grammar, choices }
     })
 }
@@ -262,9 +271,15 @@ fn truncate(s: &str, n: usize) -> String {
 }
 
 fn accepted_spec(raw: &RawGrammar, st: &mut Stats) -> Option<(Spec, Analysis)> {
-    let (spec, _) = gen::build(raw);
+    let (spec, source) = gen::build(raw);
     let cfg = spec.cfg();
-    if cfg.n_n > 26 || cfg.rules.len() > 64 {
+    // scaled families up to moderate sizes are let through (a type-check of their modules costs < 1 s): long lists of
+    // items, variants and terminals, three-digit indices in helper names
+    let scaled = matches!(source, gen::Source::SeedEdits | gen::Source::SeedEditsRepair) && gen::scaled_choice(raw).is_some();
+    if scaled {
+        st.class("gen:scaled-family");
+    }
+    if (!scaled && (cfg.n_n > 26 || cfg.rules.len() > 64)) || cfg.n_n > 130 || cfg.rules.len() > 200 {
         st.discard("grammar too large for the compiled tier");
         return None;
     }
